@@ -37,6 +37,7 @@ type TxSpec struct {
 	Args     *Node  `json:"args,omitempty"`
 	Signers  []int  `json:"signers,omitempty"`
 	GasLimit uint64 `json:"gas_limit,omitempty"`
+	GasPrice uint64 `json:"gas_price,omitempty"`
 	// evm
 	From  int    `json:"from,omitempty"`  // ethereum account index
 	To    string `json:"to,omitempty"`    // hex, "" = contract creation
@@ -58,7 +59,7 @@ const (
 	nUsers        = 6
 	nEth          = 3
 	defaultGas    = 200000
-	userOntAmount = 10000
+	userOntAmount = 1000000
 	userOngAmount = 1000 * 1000000000 // 1000 ONG
 )
 
@@ -197,7 +198,7 @@ func (e *env) build(s TxSpec) (*types.Transaction, error) {
 	default:
 		return nil, fmt.Errorf("unknown tx kind %q", s.Kind)
 	}
-	mtx := &types.MutableTransaction{GasPrice: 0, GasLimit: gas, TxType: types.InvokeNeo, Nonce: e.nonce(), Payload: &payload.InvokeCode{Code: code}}
+	mtx := &types.MutableTransaction{GasPrice: s.GasPrice, GasLimit: gas, TxType: types.InvokeNeo, Nonce: e.nonce(), Payload: &payload.InvokeCode{Code: code}}
 	return e.sign(mtx, s.Signers)
 }
 
